@@ -74,4 +74,36 @@ var DirectedScenarios = []Directed{
 		s.Settle()
 		return s.Finish()
 	}},
+	{Name: "stale-verdict-on-errored-subscription", Prop: "C05", Run: func(seed uint64) *HistResult {
+		// A subscription whose resource failed to load queues events for ever;
+		// a token change must still invalidate its cached access verdict.
+		s := NewScript(HistCfg{Seed: seed, Pct: 0})
+		w := s.World()
+		w.AddErr("t.x", "t.broken", "Broken")
+		w.AddModel("t.caller", map[string]Val{"v": P(1)})
+		c := s.Connect("1.2.3")
+		s.Settle()
+		g := s.Gate()
+		s.Token(c, `{"v":1}`, "")
+		s.Settle()
+		s.Req(c, "call.t.caller.goto", map[string]string{"t": "t.x"})
+		s.Settle()
+		s.Req(c, "call.t.x.m", nil) // caches the verdict on the errored subscription
+		s.Settle()
+		s.Token(c, `{"v":2}`, "")
+		s.Settle()
+		n0 := g.Bus.NumReqs()
+		s.Req(c, "call.t.x.m", nil)
+		s.Settle()
+		sawAccess := false
+		for _, r := range g.Bus.Reqs()[n0:] {
+			if r.Kind == "access" && r.Name == "t.x" {
+				sawAccess = true
+			}
+			if r.Kind == "call" && !sawAccess {
+				s.Fail("C05", "staleGrant", "call.t.x.m forwarded after a token change without a new access request (verdict obtained under the old token)")
+			}
+		}
+		return s.Finish()
+	}},
 }
